@@ -137,9 +137,9 @@ theorem fwdSearch_mapped (env : MapEnv) (m : Mem) : ∀ n x,
 
 /-- running the visitor of `find_next_non_zero_value_fast` over tiling ranges is the position-level
 search over the whole interval. -/
-theorem findVisit_tiles_fwd (env : MapEnv) (s : Spec) (m : Mem) (one : BBR → FindRes)
-    (hone : ∀ r : BBR, r.wf → one r = (fwdSearch env m (r.hi - r.lo) r.lo).toFind)
-    {x y : Nat} {L : List BBR} (h : Tiles x L y) :
+theorem findVisit_tiles_fwd (env : MapEnv) (s : Spec) (m : Mem) (one : BBR → FindRes) (x0 : Nat)
+    (hone : ∀ r : BBR, r.wf → x0 ≤ r.lo → one r = (fwdSearch env m (r.hi - r.lo) r.lo).toFind)
+    {x y : Nat} {L : List BBR} (h : Tiles x L y) (hx : x0 ≤ x) :
     findVisit s one L = resData s (fwdSearch env m (y - x) x) := by
   induction L generalizing x with
   | nil => simp only [Tiles] at h; subst h; simp [findVisit, fwdSearch, resData]
@@ -151,11 +151,11 @@ theorem findVisit_tiles_fwd (env : MapEnv) (s : Spec) (m : Mem) (one : BBR → F
     have e2 : x + (r.hi - r.lo) = r.hi := by omega
     rw [e, fwdSearch_append, e2]
     simp only [findVisit]
-    rw [hone r h2, ← h1]
+    rw [hone r h2 (by omega), ← h1]
     cases fwdSearch env m (r.hi - r.lo) r.lo with
     | found p => rfl
     | unmapped => rfl
-    | notFound => exact ih h3
+    | notFound => exact ih h3 (by omega)
 
 /-! ## the data address of a found bit -/
 
